@@ -904,3 +904,98 @@ func tiePrereleaseRule(r *Report, p *Prog, rule string) {
 		r.ok(rule, key, p.pos(at), "the prerelease flag of a lower bound is read where the bounds tie")
 	}
 }
+
+// orderedExitRule (C12.k ORDERED-EXIT): leaving a loop over the spans of a set
+// as soon as a bound lies beyond the version ("the rest cannot match") is
+// correct only if the spans are sorted by lower bound. canon sorts the sets of
+// the SemVer systems and PyPI, but returns Maven sets as they were written, and
+// the set syntax is not canonicalised either. An early exit of this kind is a
+// reviewed exception, not a free optimisation: a new one in a function that
+// sees Maven sets (matchVersion) drops the matches of every range written
+// after a higher one.
+var orderedExitReviewed = map[string]string{
+	"semver.canon": "the slice was sorted by lower bound a few lines above (sort.Slice in canon itself, C09.a), and Maven sets never reach the loop",
+	"(*semver.Set).Intersect": "and-lists exist only for the systems whose sets canon sorts; both operands come out of the constraint parser (Maven and NuGet ranges are parsed by setRange and never intersected). The residual case, operands built with the set syntax, is recorded in notes/baseline_findings/C09h",
+}
+
+func orderedExitRule(r *Report, p *Prog, rule string) int {
+	isCmp := func(v ssa.Value) bool {
+		return condDerives(v, 0, func(x ssa.Value) bool {
+			c, ok := x.(*ssa.Call)
+			if !ok {
+				return false
+			}
+			switch staticCalleeName(c) {
+			case "(*semver.Version).lessThan", "(*semver.Version).greaterThan", "(*semver.Version).lessThanOrEqual", "(*semver.Version).greaterThanOrEqual", "(*semver.Version).Compare", "semver.compare":
+				return true
+			}
+			return false
+		})
+	}
+	n := 0
+	for _, f := range p.Funcs {
+		if f.Pkg == nil || f.Blocks == nil || f.Synthetic != "" || f.Pkg.Pkg.Path() != modPrefix+"semver" {
+			continue
+		}
+		loops := naturalLoops(f)
+		sort.Slice(loops, func(i, j int) bool { return loops[i].header.Index < loops[j].header.Index })
+		ordinal := 0
+		for _, l := range loops {
+			// a loop over spans: its body indexes a []span
+			overSpans := false
+			for b := range l.body {
+				for _, in := range b.Instrs {
+					switch x := in.(type) {
+					case *ssa.IndexAddr:
+						if strings.HasSuffix(x.X.Type().String(), "[]deps.dev/util/semver.span") {
+							overSpans = true
+						}
+					case *ssa.Index:
+						if strings.HasSuffix(x.X.Type().String(), "[]deps.dev/util/semver.span") {
+							overSpans = true
+						}
+					}
+				}
+			}
+			if !overSpans {
+				continue
+			}
+			n++
+			ordinal++
+			key := fmt.Sprintf("%s: loop over spans #%d leaves early only where reviewed", fnKey(f), ordinal)
+			var exit *ssa.BasicBlock
+			for b := range l.body {
+				ifi, ok := b.Instrs[len(b.Instrs)-1].(*ssa.If)
+				if !ok || b == l.header || !isCmp(ifi.Cond) {
+					continue
+				}
+				for _, s := range b.Succs {
+					if l.body[s] || s == l.header {
+						continue
+					}
+					// a break: the target is where the loop goes when it is done
+					// (a successor of the header outside the body); a dedicated
+					// `return` inside the body is not an order-assuming exit
+					isDone := false
+					for _, hs := range l.header.Succs {
+						if hs == s && !l.body[hs] {
+							isDone = true
+						}
+					}
+					if isDone {
+						exit = b
+					}
+				}
+			}
+			switch {
+			case exit == nil:
+				r.ok(rule, key, blockPos(p, l.header), "no exit on a bound comparison")
+			case orderedExitReviewed[fnKey(f)] != "":
+				r.ok(rule, key, blockPos(p, exit), "reviewed: "+orderedExitReviewed[fnKey(f)])
+			default:
+				r.bad(rule, key, blockPos(p, exit), "the loop over the spans of a set is left as soon as a bound comparison says the rest cannot match, which presumes spans sorted by lower bound: canon leaves Maven sets (and the set syntax leaves every set) in the order written, so the spans after the first one that lies beyond the version are never looked at")
+			}
+		}
+	}
+	return n
+}
